@@ -123,6 +123,15 @@ func (p *parser) error(format string, args ...interface{}) {
 	}
 }
 
+func (p *parser) errorAt(token Token, format string, args ...interface{}) {
+	if p.err == nil { // show first error
+		p.err = &file.Error{
+			Location: token.Location,
+			Message:  fmt.Sprintf(format, args...),
+		}
+	}
+}
+
 func (p *parser) next() {
 	p.pos++
 	if p.pos >= len(p.tokens) {
@@ -292,7 +301,7 @@ func (p *parser) parsePrimaryExpression() Node {
 		if !strings.ContainsAny(value, "xX") && strings.ContainsAny(value, ".eE") {
 			number, err := strconv.ParseFloat(value, 64)
 			if err != nil {
-				p.error("invalid float literal: %v", err)
+				p.errorAt(token, "invalid float literal: %v", err)
 			}
 			node := &FloatNode{Value: number}
 			node.SetLocation(token.Location)
@@ -300,7 +309,7 @@ func (p *parser) parsePrimaryExpression() Node {
 		} else if strings.ContainsAny(value, "xX") {
 			number, err := strconv.ParseInt(value, 0, 64)
 			if err != nil {
-				p.error("invalid hex literal: %v", err)
+				p.errorAt(token, "invalid hex literal: %v", err)
 			}
 			node := &IntegerNode{Value: int(number)}
 			node.SetLocation(token.Location)
@@ -308,7 +317,7 @@ func (p *parser) parsePrimaryExpression() Node {
 		} else {
 			number, err := strconv.ParseInt(value, 10, 64)
 			if err != nil {
-				p.error("invalid integer literal: %v", err)
+				p.errorAt(token, "invalid integer literal: %v", err)
 			}
 			node := &IntegerNode{Value: int(number)}
 			node.SetLocation(token.Location)
